@@ -364,7 +364,7 @@ def run(pid, tier, seed):
     inc = sum(v for kk, v in camp.counters.items() if kk.startswith("inconclusive"))
     if inc > max(3, camp.evaluations // 1000):
         raise core.HarnessError("%d inconclusive cases (wall-clock backstop)" % inc)
-    return core.finish(pid, tier, seed, camp, RULE, t0, assumptions=[
+    return core.finish(pid, tier, seed, camp, RULE, t0, replay_fn=replay, assumptions=[
         "non-termination is decided by a step budget with measured head-room (max observed counts are in the coverage), the wall clock is only a backstop that yields 'inconclusive'",
         "damage is limited to prefixes and <= 2 lexeme edits",
     ])
